@@ -1,6 +1,9 @@
 use std::{marker::PhantomData, sync::Arc};
 
+#[cfg(not(feature = "verif"))]
 use parking_lot::RwLock;
+#[cfg(feature = "verif")]
+use rawdb::verif::RwLock;
 
 mod any_vec;
 mod readable;
